@@ -5,11 +5,12 @@ package main
 // it (write errors are explicitly "not fatal"), so every follow-up call must return — with
 // whatever result — and must not panic.
 //
-// Known finding F15: when the call was given a per-call AllowDuplicateNames that differs
-// from the coder's own setting and failed inside an object, the name/namespace stacks are
-// left out of step with the token stack and later calls panic with index errors.  Those
-// cases carry history=reuse-after-failed-percall-dupnames; every other case carries
-// history=reuse-after-failed-call / reuse-after-successful-call and must be silent.
+// Finding F15 (repaired in /repo by ec60d65 and 1dd72ca): when the call was given a per-call
+// AllowDuplicateNames that differs from the coder's own setting and failed inside an object,
+// the name/namespace stacks were left out of step with the token stack and later calls
+// panicked with index errors.  Those cases carry history=reuse-after-failed-percall-dupnames;
+// every other case carries history=reuse-after-failed-call / reuse-after-successful-call.
+// All of them must be silent.
 
 import (
 	"bytes"
